@@ -146,6 +146,9 @@ func genProbe(r *hx.Rand, idx int, seed int64) *Scenario {
 	for i := 1; i <= g.nflows; i++ {
 		fl = append(fl, g.probeFlow(i, g.nflows))
 	}
+	if g.loc = r.Chance(1, 3); g.loc {
+		localize(r, fl)
+	}
 	assetsJSON := richAssets(fl)
 	contact := g.contact()
 	// mostly triggers without input, so that "has this session received input" changes during the history
@@ -166,6 +169,9 @@ func genProbe(r *hx.Rand, idx int, seed int64) *Scenario {
 	}
 	small := r.Chance(1, 5)
 	tags := []string{"rich", "probe"}
+	if g.loc {
+		tags = append(tags, "localized")
+	}
 	for k := range g.feat {
 		tags = append(tags, k)
 	}
